@@ -306,6 +306,14 @@ def gen_case_L(rng, big=False):
     peers = 'BCD'[:nb]
     egress = [f'Edfa_booster_roadm A_to_fiber A{x}' for x in peers]
     ingress = [f'Edfa_preamp_roadm A_from_fiber {x}A' for x in peers]
+    fused = None
+    if rng.random() < 0.4:
+        # a neighbour ROADM F reached through fused elements only (no amplifier): its own target feeds roadm A
+        kf = rng.randrange(3)
+        fused = {'policy': {POL[kf]: gen_policy_value(rng, POL[kf])},
+                 'loss_in': rng.choice([0, 0.5, 2.5, round(rng.uniform(0, 6), 2)]), 'loss_out': rng.choice([0, 1.5, 3])}
+        egress.append('fused AF')
+        ingress.append('fused FA')
     u = rng.random()
     eqp, elp = {}, {}
     k = rng.randrange(3)
@@ -334,24 +342,36 @@ def gen_case_L(rng, big=False):
     case = {'kind': 'L', 'peers': peers, 'eq_policy': eqp, 'policy': elp,
             'per_degree': gen_per_degree(rng, egress + (['trx A'] if rng.random() < 0.1 else []), p_each),
             'pmd': rng.choice([0, 1e-12]), 'pdl': rng.choice([0, 0.5]), 'profiles': gen_profiles(rng),
-            'lengths': [rng.choice([20, 40, 60, 80]) for _ in peers]}
-    # per_degree_impairments consistent with the path types inferred from the topology
+            'lengths': [rng.choice([20, 40, 60, 80]) for _ in peers], 'fused_peer': fused,
+            'pref': rng.choice([0, 0, 0, -2, -1, 1, 2.5, 3])}
+    # per_degree_impairments: mostly consistent with the path types inferred from the topology
     pdi = []
     for p in case['profiles']:
         if rng.random() < 0.3:
-            if p['type'] == 'express' and nb >= 1:
+            typ = p['type']
+            if rng.random() < 0.12:
+                typ = rng.choice(['express', 'add', 'drop'])        # a profile of another type on this pair
+            if typ == 'express':
                 pdi.append({'from_degree': rng.choice(ingress), 'to_degree': rng.choice(egress), 'impairment_id': p['id']})
-            elif p['type'] == 'add':
+            elif typ == 'add':
                 pdi.append({'from_degree': 'trx A', 'to_degree': rng.choice(egress), 'impairment_id': p['id']})
             else:
                 pdi.append({'from_degree': rng.choice(ingress), 'to_degree': 'trx A', 'impairment_id': p['id']})
+            if rng.random() < 0.02:
+                pdi[-1]['to_degree'] = 'no such degree'
+            if rng.random() < 0.02:
+                pdi[-1]['impairment_id'] = 77                       # unknown profile id
     seen, case['per_degree_impairments'] = set(), []
     for i in pdi:
-        if (i['from_degree'], i['to_degree']) not in seen and len({p['id'] for p in case['profiles']}) == len(case['profiles']):
+        if (i['from_degree'], i['to_degree']) not in seen or rng.random() < 0.3:     # a repeated pair: the later entry wins
             seen.add((i['from_degree'], i['to_degree']))
             case['per_degree_impairments'].append(i)
     case['seeds'] = [rng.randrange(1 << 30) for _ in range(rng.randint(1, 3) if not big else 1)]
     case['big'] = big
+    # amplifier settings upstream of the ingress degrees (delta_p, out_voa) for a second, direct call of
+    # set_roadm_input_powers: the auto-design alone always leaves out_voa = 0 on the preamplifiers
+    case['amp_settings'] = [[round(rng.uniform(-3, 3), 2), rng.choice([0, 0.5, 1, 2.5])] for _ in peers] \
+        if rng.random() < 0.7 else None
     return case
 
 
@@ -477,7 +497,35 @@ def topo_L(case):
             els.append({'uid': f'fiber {a}{b}', 'type': 'Fiber', 'type_variety': 'SSMF',
                         'params': {'length': ln, 'length_units': 'km', 'loss_coef': 0.2, 'con_in': None, 'con_out': None}})
             cx += [(f'roadm {a}', f'fiber {a}{b}'), (f'fiber {a}{b}', f'roadm {b}')]
+    fp = case.get('fused_peer')
+    if fp:
+        els += [{'uid': 'trx F', 'type': 'Transceiver'}, {'uid': 'roadm F', 'type': 'Roadm', 'params': dict(fp['policy'])},
+                {'uid': 'fused FA', 'type': 'Fused', 'params': {'loss': fp['loss_in']}},
+                {'uid': 'fused AF', 'type': 'Fused', 'params': {'loss': fp['loss_out']}}]
+        cx += [('trx F', 'roadm F'), ('roadm F', 'trx F'), ('roadm F', 'fused FA'), ('fused FA', 'roadm A'),
+               ('roadm A', 'fused AF'), ('fused AF', 'roadm F')]
     return {'elements': els, 'connections': [{'from_node': a, 'to_node': b} for a, b in cx]}
+
+
+def feeds_of(net, roadm, case):
+    """what feeds each ingress degree of `roadm`: walk upstream through fibres / fused elements (losses add up) to the
+    first transceiver, amplifier or ROADM — topology and amplifier settings, i.e. inputs of the ROADM design step"""
+    import gnpy.core.elements as elements
+    out = []
+    for el in net.predecessors(roadm):
+        node, loss = el, 0.0
+        while isinstance(node, (elements.Fiber, elements.Fused, elements.RamanFiber)):
+            loss += node.loss
+            node = next(net.predecessors(node))
+        if isinstance(node, elements.Edfa):
+            out.append({'deg': el.uid, 'kind': 'edfa', 'dp': float(node._delta_p), 'voa': float(node.out_voa), 'loss': float(loss)})
+        elif isinstance(node, elements.Roadm):
+            out.append({'deg': el.uid, 'kind': 'roadm', 'policy': case['fused_peer']['policy'], 'loss': float(loss)})
+        elif isinstance(node, elements.Transceiver):
+            out.append({'deg': el.uid, 'kind': 'trx', 'loss': float(loss)})
+        else:
+            raise RuntimeError(f'unexpected feed {node.uid}')
+    return out
 
 
 def drive_L(case, rng_mod):
@@ -486,7 +534,9 @@ def drive_L(case, rng_mod):
     from gnpy.core.network import add_missing_elements_in_network
     from gnpy.tools import json_io
     from gnpy.tools.worker_utils import designed_network
-    obs = {'stage': None, 'crossings': [], 'next_oms': [], 'calls': [], 'xs': []}
+    import gnpy.core.network as nw
+    obs = {'stage': None, 'crossings': [], 'next_oms': [], 'prev_oms': [], 'drops': [], 'adds': [], 'calls': [], 'xs': [],
+           'feeds': [], 'warnings': []}
     eq = dict(base_equipment())
     eq['Roadm'] = dict(eq['Roadm'])
     entry = {'type_variety': 'c06', 'add_drop_osnr': 38, 'pmd': case['pmd'], 'pdl': case['pdl'],
@@ -506,6 +556,16 @@ def drive_L(case, rng_mod):
     obs['node'] = [roadm.target_pch_out_dbm, roadm.target_psd_out_mWperGHz, roadm.target_out_mWperSlotWidth]
     add_missing_elements_in_network(net, eq)
     obs['next_oms'] = [n.uid for n in net.successors(roadm) if not isinstance(n, elements.Transceiver)]
+    obs['prev_oms'] = [n.uid for n in net.predecessors(roadm) if not isinstance(n, elements.Transceiver)]
+    obs['drops'] = [n.uid for n in net.successors(roadm) if isinstance(n, elements.Transceiver)]
+    obs['adds'] = [n.uid for n in net.predecessors(roadm) if isinstance(n, elements.Transceiver)]
+    warn_orig = nw.logger.warning
+
+    def warn_spy(msg, *a, **k):
+        if isinstance(msg, str) and 'maximum target power' in msg and 'in ROADM "roadm A"' in msg:
+            obs['warnings'].append((float(msg.split('maximum target power ')[1].split('dBm')[0]),
+                                    msg.split('Min input power from "')[1].split('" direction')[0]))
+        return warn_orig(msg, *a, **k)
     orig = elements.Roadm.set_roadm_paths
     calls = []
 
@@ -514,17 +574,31 @@ def drive_L(case, rng_mod):
             calls.append({'from': from_degree, 'to': to_degree, 'type': path_type, 'id': impairment_id})
         return orig(self, from_degree=from_degree, to_degree=to_degree, path_type=path_type, impairment_id=impairment_id)
     elements.Roadm.set_roadm_paths = spy
+    nw.logger.warning = warn_spy
     try:
         with warnings.catch_warnings():
             warnings.simplefilter('ignore')
-            designed_network(eq, net, no_insert_edfas=True)
+            designed_network(eq, net, no_insert_edfas=True, args_power=case.get('pref', 0))
     except Exception as e:
         obs['stage'] = ('design', type(e).__name__, str(e)[:160])
         obs['calls'] = calls
         return obs
     finally:
         elements.Roadm.set_roadm_paths = orig
+        nw.logger.warning = warn_orig
     obs['calls'] = calls
+    if case.get('amp_settings'):
+        # same function, other amplifier settings
+        for x, (dp, voa) in zip(case['peers'], case['amp_settings']):
+            amp = next(n for n in net.nodes() if n.uid == f'Edfa_preamp_roadm A_from_fiber {x}A')
+            amp._delta_p, amp.out_voa = dp, voa
+        obs['warnings'].clear()
+        nw.logger.warning = warn_spy
+        try:
+            nw.set_roadm_input_powers(net, roadm, eq, float(case.get('pref', 0)))
+        finally:
+            nw.logger.warning = warn_orig
+    obs['feeds'] = feeds_of(net, roadm, case)
     obs['tables'] = [dict(roadm.per_degree_pch_out_dbm), dict(roadm.per_degree_pch_psd), dict(roadm.per_degree_pch_psw)]
     obs['ref_in'] = {k: float(v) for k, v in roadm.ref_pch_in_dbm.items()}
     obs['ref_carrier'] = {'baud_rate': float(roadm.ref_carrier.baud_rate), 'slot_width': float(roadm.ref_carrier.slot_width)}
@@ -608,6 +682,26 @@ def oracle_A(case, obs):
     return []
 
 
+def pdi_broken(case, obs):
+    """does per_degree_impairments name an unknown degree / unknown profile, or a profile whose type does not fit a
+    transceiver degree?  (read off the configuration and the degree lists, independently of the model)"""
+    profs = {}
+    for p in case['profiles']:
+        profs[p['id']] = p['type']
+    last = {}
+    for i in case['per_degree_impairments']:
+        last[(i['from_degree'], i['to_degree'])] = i['impairment_id']
+    for (a, b), iid in last.items():
+        if a not in obs['prev_oms'] + obs['adds'] or b not in obs['next_oms'] + obs['drops']:
+            return True
+        if iid not in profs:
+            return True
+        want = 'add' if a in obs['adds'] else 'drop' if b in obs['drops'] else None
+        if want and profs[iid] != want:
+            return True
+    return False
+
+
 def oracle_L(case, obs):
     fails = []
     ep, ev = count_pol(case['eq_policy'])
@@ -619,6 +713,8 @@ def oracle_L(case, obs):
     if rejected and not conf_err:
         fails.append(('loader_crash', f"{obs['stage'][0]}: {obs['stage'][1]}: {obs['stage'][2]}"))
         return fails
+    if rejected and obs['stage'][1] == 'NetworkTopologyError' and pdi_broken(case, obs):
+        return fails                              # wrong per_degree_impairments entry: not a matter of policy
     must_reject = ep != 1 or lp > 1
     if must_reject:
         if not rejected:
@@ -709,6 +805,9 @@ def all_names(case, obs, xs):
     for c in obs.get('calls', []) + case.get('calls', []):
         names += [c['from'], c['to']]
     names += list(obs.get('ref_in', {})) + list(case.get('ref_in', {})) + obs.get('next_oms', [])
+    names += obs.get('prev_oms', []) + obs.get('drops', []) + obs.get('adds', [])
+    for i in case.get('per_degree_impairments', []):
+        names += [i['from_degree'], i['to_degree']]
     for x in xs:
         names += [x['from'], x['deg']]
     return names
@@ -725,15 +824,32 @@ def term_A(case, obs):
             f"{listlit([cross_lit(x, r, ids) for x, r in zip(xs, obs['crossings'])])}"), ids
 
 
+def policy_lit(pol):
+    (k, v), = pol.items()
+    return f"({['Power', 'Psd', 'Psw'][POL.index(k)]} {qlit(float(v) if k == POL[0] else db(v))})"
+
+
+def feed_lit(f, ids):
+    if f['kind'] == 'trx':
+        return f"ftrx {ids[f['deg']]} {qlit(f['loss'])}"
+    if f['kind'] == 'edfa':
+        return f"fedfa {ids[f['deg']]} {qlit(f['dp'])} {qlit(f['voa'])} {qlit(f['loss'])}"
+    return f"froadm {ids[f['deg']]} {policy_lit(f['policy'])} {qlit(f['loss'])}"
+
+
 def term_L(case, obs):
     ids = deg_ids(all_names(case, obs, obs['xs']))
     pd = case['per_degree']
+    rc = obs.get('ref_carrier') or {'baud_rate': 32e9, 'slot_width': 50e9}
+    zl = lambda names: listlit([str(ids[d]) for d in names])
+    pdis = listlit([f"pd3 {ids[i['from_degree']]} {ids[i['to_degree']]} {zlit(i['impairment_id'])}"
+                    for i in case['per_degree_impairments']])
     return (f"runL {keys3_lit(case['eq_policy'])} {keys3_lit(case['policy'])} {qlit(case['pmd'])} {qlit(case['pdl'])} "
             f"{dict_lit(pd.get(PDEG[0], {}), ids, float)} {dict_lit(pd.get(PDEG[1], {}), ids, db)} "
-            f"{dict_lit(pd.get(PDEG[2], {}), ids, db)} {listlit([str(ids[d]) for d in obs['next_oms']])} "
-            f"{profiles_lit(case['profiles'])} {calls_lit(obs['calls'] if obs['stage'] is None else [], ids)} "
-            f"{refc_lit(obs.get('ref_carrier') or {'baud_rate': 32e9, 'slot_width': 50e9})} "
-            f"{dict_lit(obs.get('ref_in', {}), ids, float)} "
+            f"{dict_lit(pd.get(PDEG[2], {}), ids, db)} {zl(obs['next_oms'])} "
+            f"{profiles_lit(case['profiles'])} {pdis} {zl(obs['prev_oms'])} {zl(obs['drops'])} {zl(obs['adds'])} "
+            f"{qlit(float(case.get('pref', 0)))} {qlit(db(rc['baud_rate'] / 1e9))} {qlit(db(rc['slot_width'] / 1e9))} "
+            f"{listlit([feed_lit(f, ids) for f in obs['feeds']])} "
             f"{listlit([cross_lit(x, r, ids) for x, r in zip(obs['xs'], obs['crossings'])])}"), ids
 
 
@@ -776,9 +892,16 @@ def parse_tables(seg, ids):
     back = {v: k for k, v in ids.items()}
     parts = seg[2:].split('|')
     tabs = []
-    for p in parts[:3]:
+    for p in parts[:3] + [parts[5]]:
         tabs.append({back[int(e.split('=')[0])]: fr(e.split('=')[1]) for e in p.split(',') if e})
-    return tabs, parts[3]
+    calls = []
+    for e in parts[4].split(','):
+        if e:
+            a, b, t, i = e.split(':')
+            calls.append({'from': back[int(a)], 'to': back[int(b)], 'type': {'x': 'express', 'a': 'add', 'd': 'drop'}[t],
+                          'id': None if i == 'N' else int(i)})
+    warned = sorted(back[int(v)] for v in parts[7].strip('[]').split(',') if v)
+    return tabs[:3], parts[3], calls, tabs[3], fr(parts[6]), warned
 
 
 def compare(case, obs, line, ids):
@@ -795,7 +918,7 @@ def compare(case, obs, line, ids):
     if stage is not None:
         return ('corr:Roadm.load', 'implementation rejects, model accepts', f'{stage[0]}:{stage[1]}: {stage[2]}', segs[0][:200])
     if case['kind'] == 'L':
-        tabs, node = parse_tables(segs[0], ids)
+        tabs, node, mcalls, mrin, msup, mwarn = parse_tables(segs[0], ids)
         convs = [float, db, db]
         for k in range(3):
             it = {d: convs[k](v) for d, v in obs['tables'][k].items()}
@@ -806,6 +929,13 @@ def compare(case, obs, line, ids):
         mnode = None if node == 'none' else (node.split('=')[0], fr(node.split('=')[1]))
         if (inode is None) != (mnode is None) or (inode and (inode[0] != mnode[0] or abs(inode[1] - mnode[1]) > TOL)):
             return ('corr:Roadm.load', 'node policy in force', inode, node)
+        if mcalls != obs['calls']:
+            return ('corr:network.set_roadm_internal_paths', 'set_roadm_paths calls', obs['calls'], mcalls)
+        if set(mrin) != set(obs['ref_in']) or any(abs(mrin[d] - obs['ref_in'][d]) > TOL for d in mrin):
+            return ('corr:network.set_roadm_input_powers', 'ref_pch_in_dbm', obs['ref_in'], mrin)
+        if sorted(w[1] for w in obs['warnings']) != mwarn or any(abs(w[0] - msup) > TOL for w in obs['warnings']):
+            return ('corr:network.set_roadm_input_powers', 'target_to_be_supported / warned ingress degrees',
+                    obs['warnings'], [msup, mwarn])
         segs = segs[1:]
     if not obs['crossings']:
         return None
@@ -880,6 +1010,10 @@ def run(ctx):
             ctx.count('L_' + ('accepted' if obs['stage'] is None else f"rejected_{obs['stage'][0]}_{obs['stage'][1]}"))
             for key, desc in oracle_L(c, obs):
                 ctx.violation(key, desc, pub)
+            for f in obs['feeds']:
+                ctx.count('L_feed_' + f['kind'])
+            ctx.count('L_target_not_met_warnings', len(obs['warnings']))
+            ctx.count('L_per_degree_impairments', len(c['per_degree_impairments']))
             view = None
             if obs['stage'] is None:
                 view = dict(c, calls=obs['calls'], per_degree={PDEG[k]: dict(obs['tables'][k]) for k in range(3)},
@@ -935,7 +1069,9 @@ def run(ctx):
         'dB values of PSD / PSW targets, baud rates, slot widths and channel powers are computed by the harness with '
         'math.log10 (10·log10(psd) + 10·log10(baud/1e9) for a PSD target) and fed to the model as exact rationals',
         'PSD / PSW values are > 0 (no dB value otherwise); frequency-range entries have both bounds or none',
-        'loader level: the internal paths (set_roadm_paths calls) and ref_pch_in_dbm of the designed element are '
-        'observed on the implementation, the model recomputes everything else',
+        'loader level: inputs of the model are the configuration, the degree lists around the ROADM and what feeds each '
+        'ingress degree (upstream transceiver / amplifier delta_p, out_voa / neighbour ROADM policy, accumulated '
+        'fibre and fused losses); the set_roadm_paths calls, ref_pch_in_dbm, target_to_be_supported and the warned '
+        'ingress degrees are model outputs compared with the implementation',
     ]
     return common.finish(ctx, MATCHERS)
